@@ -275,6 +275,17 @@ func c11ReadIndex(c *Check) {
 				}
 			}
 			okV = hasOld
+		} else if v.K == KPhi {
+			// hand-written compare-select: every incoming value is >= the stored acknowledgement
+			oldS := &Sym{K: KIndex, Args: []*Sym{FieldOf(ro, acksF), rfi.Sym(mu.Key)}}
+			edges := phiEdges(rfi, v.V, mu)
+			okV = len(edges) > 0
+			for _, pe := range edges {
+				es := rfi.Sym(pe.val)
+				if es.Key() != oldS.Key() && !pe.facts.ImpliesCmp(es, ">=", oldS) {
+					okV = false
+				}
+			}
 		}
 		c.Result(okM && okV, "C11.E", "recvAck never regresses an acknowledgement", fnName(recvAck), p.site(mu), "acks[from] = max(acks[from], decoded)", v.Key())
 	}
